@@ -572,6 +572,14 @@ class FileSystemSink(DataSink):
             # (Content of an unregistered type is not validated.)
             raise ValueError("Can't store an object which has no 'type' or 'id'")
 
+        for name in (stix_obj["type"], stix_obj["id"]):
+            # Both become names of directories/files below the store directory.
+            if not isinstance(name, str) or name in ("", ".", "..") or \
+                    os.path.basename(name) != name:
+                raise ValueError(
+                    "Can't store an object whose 'type' or 'id' is not usable as a file name: %r" % (name,),
+                )
+
         type_dir = os.path.join(self._stix_dir, stix_obj["type"])
 
         # All versioned objects should have a "modified" property.
